@@ -17,13 +17,13 @@ def check(repo, rep, tier):
                        'in the engine context; internal markers cannot be forged from source; loaded code runs on a copy of the '
                        'context with empty __builtins__; API entries are unreachable through the predicate key format; debug '
                        'output cannot leave its comment. What user-registered Python predicates do is out of scope.')
-    re_.rule_source_names_disjoint(cm, em, rep, 'C12.T2f')
-    re_.rule_quote_or_class(cm, rep, 'C12.T1')
-    re_.rule_no_capture(cm, em, rep, 'C12.T2')
-    re_.rule_callee_whitelist(cm, em, rep, 'C12.T3')
-    re_.rule_markers_not_forgeable(cm, rep, 'C12.T4')
-    rs.rule_script_globals(em, rep, 'C12.T5')
-    rq.rule_atomic_load(em, rep, 'C12.T5b')
-    rq.rule_api_unreachable(em, rep, 'C12.T5c')
-    rx.rule_lookup_confined(em, rep, 'C12.T5d')
-    re_.rule_comment_safe_writes(cm, rep, 'C12.T6')
+    rep.run(re_.rule_source_names_disjoint, cm, em, rep, 'C12.T2f')
+    rep.run(re_.rule_quote_or_class, cm, rep, 'C12.T1')
+    rep.run(re_.rule_no_capture, cm, em, rep, 'C12.T2')
+    rep.run(re_.rule_callee_whitelist, cm, em, rep, 'C12.T3')
+    rep.run(re_.rule_markers_not_forgeable, cm, rep, 'C12.T4')
+    rep.run(rs.rule_script_globals, em, rep, 'C12.T5')
+    rep.run(rq.rule_atomic_load, em, rep, 'C12.T5b')
+    rep.run(rq.rule_api_unreachable, em, rep, 'C12.T5c')
+    rep.run(rx.rule_lookup_confined, em, rep, 'C12.T5d')
+    rep.run(re_.rule_comment_safe_writes, cm, rep, 'C12.T6')
